@@ -254,6 +254,21 @@ Definition with_exts (h : header) (x : bool) (profile : Z) (es : list ext) : hea
   mkHeader (version h) (padding h) x (marker h) (payload_type h) (sequence_number h)
            (timestamp h) (ssrc h) (csrc h) profile es.
 
+(* extensionsSizeWith: the bytes of the extension elements if the first element with the id (a new
+   element if there is none) had a value of vlen bytes; a legacy block is its one value *)
+Definition elem_hdr_len (profile : Z) : Z :=
+  if profile =? profile_one_byte then 1 else if ext_form profile =? profile_two_byte then 2 else 0.
+Fixpoint exts_size (k : Z) (es : list ext) : Z :=
+  match es with [] => 0 | e :: t => k + zlen (epayload e) + exts_size k t end.
+Fixpoint exts_size_skip_first (k id : Z) (es : list ext) : Z :=
+  match es with
+  | [] => 0
+  | e :: t => if eid e =? id then exts_size k t else k + zlen (epayload e) + exts_size_skip_first k id t
+  end.
+Definition exts_size_with (profile id vlen : Z) (es : list ext) : Z :=
+  let k := elem_hdr_len profile in
+  if k =? 0 then vlen else k + vlen + exts_size_skip_first k id es.
+
 (* returns the new header, or the error with the header unchanged *)
 Definition set_extension (h : header) (id : Z) (v : list Z) : header * option err :=
   if extension h then
@@ -271,6 +286,9 @@ Definition set_extension (h : header) (id : Z) (v : list Z) : header * option er
     match bad with
     | Some e => (h, Some e)
     | None =>
+      (* the elements must fit 65535 words, what the 16-bit length field can count (D36) *)
+      if 262140 <? exts_size_with (extension_profile h) id (zlen v) (extensions h) then (h, Some ESize)
+      else
       match set_existing id v (extensions h) with
       | Some es => (with_exts h true (extension_profile h) es, None)
       | None => (with_exts h true (extension_profile h) (extensions h ++ [mkExt id v]), None)
